@@ -1,6 +1,6 @@
 (* parse_turtle on the one-statement-per-line subset. *)
 Require Import KV.Codec13.Model KV.Codec13.Spec KV.Codec13.Wf KV.Codec13.WfTtl KV.Codec13.Classes KV.Codec13.Inv.
-Require Import KV.Codec13.StrProofs KV.Codec13.TokProofs KV.Codec13.DictProofs KV.Codec13.N3Proofs.
+Require Import KV.Codec13.StrProofs KV.Codec13.TokProofs KV.Codec13.DictProofs KV.Codec13.QtDictProofs KV.Codec13.QtEncProofs KV.Codec13.NtProofs KV.Codec13.N3Proofs.
 Require Import Lia PeanoNat.
 
 (* ---------------------------------------------------------------------------------------------- *)
@@ -197,6 +197,159 @@ Proof.
 Qed.
 
 (* ---------------------------------------------------------------------------------------------- *)
+(* inside a quoted triple: the Turtle tokenizer at depth 1 *)
+Definition tD (toks : list str) (cur : str) : tst := mkT toks cur 1 false false false false.
+Definition tDL (toks : list str) (cur : str) : tst := mkT toks cur 1 false true false false.
+Definition tDLE (toks : list str) (cur : str) : tst := mkT toks cur 1 false true true false.
+
+Ltac tstep_unfold1 :=
+  cbv [t_step tB tU tL tLE tD tDL tDLE t_tok t_tok_always t_push opt_is is_ws4 t_toks t_cur t_depth t_uri t_lit t_esc t_skip negb andb orb];
+  eval_closed; cbv iota.
+
+Lemma td_open : forall toks, t_step (tB toks []) cLT (Some cLT) = mkT toks [cLT; cLT] 1 false false false true.
+Proof. intros. tstep_unfold1. reflexivity. Qed.
+Lemma td_skip : forall toks cur c nx, t_step (mkT toks cur 1 false false false true) c nx = tD toks cur.
+Proof. intros. tstep_unfold1. reflexivity. Qed.
+Lemma td_skip0 : forall toks c nx, t_step (mkT toks [] 0 false false false true) c nx = tB toks [].
+Proof. intros. tstep_unfold1. reflexivity. Qed.
+Lemma td_push : forall toks cur c nx, (c =? cLT) = false -> (c =? cGT) = false -> (c =? cDQ) = false ->
+  t_step (tD toks cur) c nx = tD toks (c :: cur).
+Proof. intros toks cur c nx H1 H2 H3. tstep_unfold1. rewrite H1, H2, H3. kill_ifs. Qed.
+Lemma td_lt : forall toks cur nx, opt_is cLT nx = false -> t_step (tD toks cur) cLT nx = tD toks (cLT :: cur).
+Proof. intros toks cur nx H. unfold opt_is in H. tstep_unfold1. destruct nx as [x|]; [rewrite H|]; kill_ifs. Qed.
+Lemma td_gt : forall toks cur nx, opt_is cGT nx = false -> t_step (tD toks cur) cGT nx = tD toks (cGT :: cur).
+Proof. intros toks cur nx H. unfold opt_is in H. tstep_unfold1. destruct nx as [x|]; [rewrite H|]; kill_ifs. Qed.
+Lemma td_close : forall toks cur, t_step (tD toks cur) cGT (Some cGT) =
+  mkT (trim (rev (cGT :: cGT :: cur)) :: toks) [] 0 false false false true.
+Proof. intros. tstep_unfold1. reflexivity. Qed.
+Lemma td_open_lit : forall toks cur nx, t_step (tD toks cur) cDQ nx = tDL toks (cDQ :: cur).
+Proof. intros. tstep_unfold1. reflexivity. Qed.
+Lemma td_close_lit : forall toks cur nx, t_step (tDL toks cur) cDQ nx = tD toks (cDQ :: cur).
+Proof. intros. tstep_unfold1. reflexivity. Qed.
+
+Lemma tstep_lit_plain1 : forall toks cur c nx, plain_char c = true -> t_step (tDL toks cur) c nx = tDL toks (c :: cur).
+Proof.
+  intros toks cur c nx H. unfold plain_char in H. apply andb_true_iff in H. destruct H as [H1 H2].
+  apply negb_true_iff in H1, H2. tstep_unfold1. rewrite H1, H2. kill_ifs.
+Qed.
+
+Lemma tstep_lit_bs1 : forall toks cur nx, t_step (tDL toks cur) cBS nx = tDLE toks (cBS :: cur).
+Proof. intros. tstep_unfold1. kill_ifs. Qed.
+
+Lemma tstep_lit_escaped1 : forall toks cur c nx, t_step (tDLE toks cur) c nx = tDL toks (c :: cur).
+Proof. intros. tstep_unfold1. kill_ifs. Qed.
+
+Lemma tscan_lit_plain1 : forall l toks pre la, forallb plain_char l = true ->
+  tscan_la (tDL toks (rev pre)) l la = tDL toks (rev (pre ++ l)).
+Proof.
+  induction l as [|c l IH]; intros toks pre la H.
+  - rewrite app_nil_r. reflexivity.
+  - cbn [forallb] in H. apply andb_true_iff in H. destruct H as [Hc H].
+    cbn [tscan_la]. rewrite tstep_lit_plain1 by exact Hc. rewrite rev_snoc_cons.
+    rewrite IH by exact H. rewrite <- app_assoc. reflexivity.
+Qed.
+
+Lemma tscan_lchar1 : forall x toks pre la, wf_lchar x = true ->
+  tscan_la (tDL toks (rev pre)) (lchar_text x) la = tDL toks (rev (pre ++ lchar_text x)).
+Proof.
+  intros x toks pre la H. destruct x as [c|c|d|d]; cbn [lchar_text wf_lchar] in *.
+  - apply tscan_lit_plain1. cbn [forallb]. rewrite H. reflexivity.
+  - cbn [tscan_la]. rewrite tstep_lit_bs1, tstep_lit_escaped1. rewrite !rev_snoc_cons, <- app_assoc. reflexivity.
+  - unfold wf_hex in H. apply andb_true_iff in H. destruct H as [H _]. apply andb_true_iff in H. destruct H as [_ H].
+    cbn [tscan_la]. rewrite tstep_lit_bs1.
+    destruct d as [|d0 d'].
+    + rewrite tstep_lit_escaped1. rewrite !rev_snoc_cons, <- app_assoc. reflexivity.
+    + rewrite tstep_lit_escaped1. rewrite !rev_snoc_cons.
+      rewrite tscan_lit_plain1 by (apply hexes_plain; exact H). rewrite <- !app_assoc. reflexivity.
+  - unfold wf_hex in H. apply andb_true_iff in H. destruct H as [H _]. apply andb_true_iff in H. destruct H as [_ H].
+    cbn [tscan_la]. rewrite tstep_lit_bs1.
+    destruct d as [|d0 d'].
+    + rewrite tstep_lit_escaped1. rewrite !rev_snoc_cons, <- app_assoc. reflexivity.
+    + rewrite tstep_lit_escaped1. rewrite !rev_snoc_cons.
+      rewrite tscan_lit_plain1 by (apply hexes_plain; exact H). rewrite <- !app_assoc. reflexivity.
+Qed.
+
+Lemma tscan_lit_body1 : forall b toks pre la, forallb wf_lchar b = true ->
+  tscan_la (tDL toks (rev pre)) (lit_text b) la = tDL toks (rev (pre ++ lit_text b)).
+Proof.
+  induction b as [|x b IH]; intros toks pre la H.
+  - cbn [lit_text flat_map]. rewrite app_nil_r. reflexivity.
+  - cbn [forallb] in H. apply andb_true_iff in H. destruct H as [Hx H].
+    unfold lit_text in *. cbn [flat_map]. rewrite tscan_la_app.
+    rewrite tscan_lchar1 by exact Hx. rewrite IH by exact H. rewrite <- app_assoc. reflexivity.
+Qed.
+
+Lemma tscan_d_push : forall l toks pre la, forallb iri_char l = true ->
+  tscan_la (tD toks (rev pre)) l la = tD toks (rev (pre ++ l)).
+Proof.
+  induction l as [|c l IH]; intros toks pre la H.
+  - rewrite app_nil_r. reflexivity.
+  - cbn [forallb] in H. apply andb_true_iff in H. destruct H as [Hc H].
+    apply iri_char_facts in Hc. destruct Hc as (_ & H1 & H2 & H3 & _).
+    cbn [tscan_la]. rewrite td_push by assumption. rewrite rev_snoc_cons.
+    rewrite IH by exact H. rewrite <- app_assoc. reflexivity.
+Qed.
+
+Lemma first_not_lt : forall l la (rest : str), forallb iri_char l = true ->
+  opt_is cLT (match (l ++ [cGT]) ++ rest with [] => la | c2 :: _ => Some c2 end) = false.
+Proof.
+  intros l la rest H. destruct l as [|c l']; [reflexivity|]. cbn [app]. cbn [forallb] in H.
+  apply andb_true_iff in H. destruct H as [Hc _]. apply iri_char_facts in Hc. destruct Hc as (_ & Hc & _). exact Hc.
+Qed.
+
+Lemma tscan_component : forall t toks pre la, comp_ok t = true ->
+  tscan_la (tD toks (rev pre)) (render_term t ++ [cSP]) la = tD toks (rev (pre ++ render_term t ++ [cSP])).
+Proof.
+  intros t toks pre la H. destruct t as [s|l|p l|b x|s p o]; cbn [comp_ok] in H; try discriminate.
+  - cbn [render_term]. cbn [app tscan_la].
+    rewrite td_lt by (apply first_not_lt; exact H). rewrite rev_snoc_cons. rewrite <- app_assoc.
+    rewrite tscan_la_app. rewrite tscan_d_push by exact H.
+    cbn [app tscan_la]. rewrite td_gt by reflexivity. rewrite td_push by reflexivity.
+    rewrite !rev_snoc_cons. repeat (rewrite <- app_assoc). reflexivity.
+  - cbn [render_term]. rewrite tscan_la_app.
+    rewrite tscan_d_push by (cbn [forallb]; unfold wf_iri in H; rewrite H; reflexivity).
+    cbn [tscan_la]. rewrite td_push by reflexivity. rewrite rev_snoc_cons, <- app_assoc. reflexivity.
+  - destruct x as [|tag|iri]; try discriminate.
+    + cbn [render_term].
+      change ((cDQ :: lit_text b ++ [cDQ]) ++ [cSP]) with (cDQ :: (lit_text b ++ [cDQ]) ++ [cSP]).
+      cbn [tscan_la]. rewrite td_open_lit. rewrite rev_snoc_cons. rewrite <- app_assoc.
+      rewrite tscan_la_app. rewrite tscan_lit_body1 by exact H.
+      cbn [app tscan_la]. rewrite td_close_lit. rewrite td_push by reflexivity.
+      rewrite !rev_snoc_cons. repeat (rewrite <- app_assoc). reflexivity.
+    + apply andb_true_iff in H. destruct H as [Hb Hi]. cbn [render_term].
+      replace ((cDQ :: lit_text b ++ cDQ :: cCARET :: cCARET :: cLT :: iri ++ [cGT]) ++ [cSP])
+        with (cDQ :: lit_text b ++ (cDQ :: cCARET :: cCARET :: cLT :: (iri ++ [cGT]) ++ [cSP]))
+        by (cbn [app]; rewrite <- !app_assoc; cbn [app]; rewrite <- ?app_assoc; reflexivity).
+      cbn [tscan_la]. rewrite td_open_lit. rewrite rev_snoc_cons.
+      rewrite tscan_la_app. rewrite tscan_lit_body1 by exact Hb.
+      cbn [tscan_la]. rewrite td_close_lit. rewrite !td_push by reflexivity.
+      rewrite td_lt by (destruct iri as [|c0 iri']; [reflexivity | cbn [app]; unfold wf_iri in Hi; cbn [forallb] in Hi; apply andb_true_iff in Hi; destruct Hi as [Hc _]; apply iri_char_facts in Hc; destruct Hc as (_ & Hc & _); exact Hc]). rewrite !rev_snoc_cons.
+      rewrite <- (app_assoc iri). rewrite (tscan_la_app iri). rewrite tscan_d_push by exact Hi.
+      cbn [app tscan_la]. rewrite td_gt by reflexivity. rewrite td_push by reflexivity.
+      rewrite !rev_snoc_cons. repeat (rewrite <- app_assoc). cbn [app]. repeat (rewrite <- app_assoc). reflexivity.
+Qed.
+
+Lemma tscan_quoted : forall s p o toks la, comp_ok s = true -> comp_ok p = true -> comp_ok o = true ->
+  tscan_la (tB toks []) (render_term (TQuoted s p o)) la = tB (render_term (TQuoted s p o) :: toks) [].
+Proof.
+  intros s p o toks la Hs Hp Ho. pose proof (trim_tight _ (tight_quoted s p o)) as T. rewrite render_quoted in *.
+  cbn [tscan_la]. rewrite td_open, td_skip.
+  rewrite (td_push toks [cLT; cLT] cSP) by reflexivity.
+  change (tD toks [cSP; cLT; cLT]) with (tD toks (rev [cLT; cLT; cSP])).
+  rewrite tscan_la_app, tscan_component by exact Hs.
+  rewrite tscan_la_app, tscan_component by exact Hp.
+  rewrite tscan_la_app, tscan_component by exact Ho.
+  cbn [tscan_la]. rewrite td_close, td_skip0.
+  assert (E : rev (cGT :: cGT :: rev ((([cLT; cLT; cSP] ++ render_term s ++ [cSP]) ++ render_term p ++ [cSP]) ++ render_term o ++ [cSP]))
+              = cLT :: cLT :: cSP :: (render_term s ++ [cSP]) ++ (render_term p ++ [cSP]) ++ (render_term o ++ [cSP]) ++ [cGT; cGT]).
+  { cbn [rev]. rewrite rev_involutive. repeat (rewrite <- app_assoc). cbn [app]. repeat (rewrite <- app_assoc). reflexivity. }
+  rewrite E, T. reflexivity.
+Qed.
+
+Lemma comp_ttl_ok : forall t, comp_ttl t = true -> comp_ok t = true.
+Proof. intros t H. unfold comp_ttl in H. apply andb_true_iff in H. tauto. Qed.
+
+(* ---------------------------------------------------------------------------------------------- *)
 (* a state in which the term `part` has been read after the tokens `toks` (pushed or still pending) *)
 Definition TRes (s : tst) (toks : list str) (part : str) : Prop :=
   (exists toks' cur, s = tB toks' cur) /\ t_tok s = tB (part :: toks) [].
@@ -280,6 +433,9 @@ Proof.
       rewrite tstep_open_uri_gen by exact Eo. rewrite !rev_snoc_cons.
       rewrite tscan_uri_content by exact Hi. rewrite <- !app_assoc. cbn [app] in *.
       rewrite (trim_tight _ Ht). apply tres_clean.
+  - (* quoted triple *)
+    apply andb_true_iff in H. destruct H as [H Ho]. apply andb_true_iff in H. destruct H as [Hs Hp].
+    rewrite tscan_quoted by (apply comp_ttl_ok; assumption). apply tres_clean.
 Qed.
 
 Lemma t_tok_clean : forall toks, t_tok (tB toks []) = tB toks [].
@@ -333,7 +489,7 @@ Qed.
 (* clean_turtle_term ; resolve_query_term on the text of a term = its lexical form *)
 (* the prefix table in scope: names are alphanumeric, IRIs do not begin with '<' *)
 Definition pref_ok (pref : list (str * str)) : Prop :=
-  Forall (fun kv => forallb name_char (fst kv) = true /\ starts_with_c cLT (snd kv) = false) pref.
+  Forall (fun kv => forallb name_char (fst kv) = true /\ forallb iri_char (snd kv) = true) pref.
 
 Lemma assoc_under : forall pref, pref_ok pref -> assoc_s [95] pref = None.
 Proof.
@@ -342,10 +498,16 @@ Proof.
   destruct (95 =? c) eqn:E; [apply N.eqb_eq in E; subst c; discriminate | exact IH].
 Qed.
 
-Lemma assoc_value_ok : forall pref k v, pref_ok pref -> assoc_s k pref = Some v -> starts_with_c cLT v = false.
+Lemma assoc_value_iri : forall pref k v, pref_ok pref -> assoc_s k pref = Some v -> forallb iri_char v = true.
 Proof.
   induction 1 as [|[k' v'] pref [_ Hv] _ IH]; intro H; [discriminate|]. cbn [assoc_s] in H.
   destruct (str_eqb k k'); [inversion H; subst; exact Hv | apply IH; exact H].
+Qed.
+
+Lemma assoc_value_ok : forall pref k v, pref_ok pref -> assoc_s k pref = Some v -> starts_with_c cLT v = false.
+Proof.
+  intros pref k v Hp H. pose proof (assoc_value_iri pref k v Hp H) as Hv. destruct v as [|c r]; [reflexivity|].
+  cbn [forallb] in Hv. apply andb_true_iff in Hv. destruct Hv as [Hc _]. apply iri_char_facts in Hc. destruct Hc as (_ & L & _). exact L.
 Qed.
 
 Lemma tm_char_id : forall c s,
@@ -390,10 +552,10 @@ Qed.
 
 Definition first_lt_free (s : str) : Prop := starts_with_c cLT s = false.
 
-Lemma clean_resolve : forall pref t, pref_ok pref -> wf_term_ttl t = true ->
+Lemma clean_resolve_plain : forall pref t, pref_ok pref -> wf_term_ttl t = true -> is_quoted_term t = false ->
   resolve_query_term pref (clean_turtle_term (render_term t)) = lex pref t /\ first_lt_free (lex pref t).
 Proof.
-  intros pref t Hp H. destruct t as [s|l|p l|b x|s p o]; cbn [wf_term_ttl] in H; try discriminate.
+  intros pref t Hp H Hnq. destruct t as [s|l|p l|b x|s p o]; cbn [wf_term_ttl] in H; try discriminate.
   - (* IRI *)
     unfold ttl_iri_ok in H. apply andb_true_iff in H. destruct H as [H _]. apply andb_true_iff in H. destruct H as [Hw Hc].
     cbn [render_term lex]. unfold clean_turtle_term.
@@ -480,6 +642,7 @@ Proof.
     exists c, (p' ++ cCOLON :: l). split; [reflexivity|]. right. left. cbn [forallb] in H. apply andb_true_iff in H.
     destruct H as [Hc _]. unfold bare_char. rewrite Hc. reflexivity.
   - eauto 6.
+  - cbn [app]. eauto 6.
 Qed.
 
 Lemma first_facts : forall c, (c = cLT \/ bare_char c = true \/ c = cDQ) ->
@@ -507,6 +670,7 @@ Proof.
   - repeat (apply andb_true_iff in H; destruct H as [H ?]). apply tight_all_nws. apply bare_nws.
     rewrite forallb_app. cbn [forallb]. rewrite (name_bare p H), (name_bare l H4). reflexivity.
   - apply (tight_term _ (ttl_lit_nt b x H0)).
+  - apply tight_quoted.
 Qed.
 
 (* if pat is a prefix of a ++ b then it is a prefix of a, or every character of a occurs in pat *)
@@ -594,25 +758,171 @@ Proof.
     destruct x as [|tag|iri]; cbn [suffix_text forallb]; [reflexivity | fold nobrace; rewrite (tag_nobrace tag Hx); reflexivity|].
     apply andb_true_iff in Hx. destruct Hx as [_ Hbr]. apply negb_true_iff in Hbr.
     rewrite forallb_app. rewrite (contains_none _ _ Hbr). reflexivity.
+  - apply andb_true_iff in H. destruct H as [H Ho]. apply andb_true_iff in H. destruct H as [Hs Hp].
+    unfold comp_ttl in Hs, Hp, Ho. apply andb_true_iff in Hs. apply andb_true_iff in Hp. apply andb_true_iff in Ho.
+    destruct Hs as [_ Bs]. destruct Hp as [_ Bp]. destruct Ho as [_ Bo]. unfold nobrace_c in Bs, Bp, Bo.
+    rewrite render_quoted. cbn [starts_with_c]. change (cLT =? cDQ) with false. cbv iota. cbn [skipn].
+    unfold sANN_OPEN. rewrite find_sub_none; [reflexivity|].
+    cbn [forallb]. rewrite !forallb_app. cbn [forallb]. rewrite Bs, Bp, Bo. reflexivity.
 Qed.
 
-Lemma ttl_flush_stmt : forall x s p o, pref_ok (d_pref x) ->
-  wf_term_ttl s = true -> wf_term_ttl p = true -> wf_term_ttl o = true ->
-  ttl_flush x (Some (render_term s)) (Some (render_term p)) [render_term o]
-  = (add_lex x (lex (d_pref x) s) (lex (d_pref x) p) (lex (d_pref x) o) None, []).
+(* what the cleaning and resolving of a term hands on: the lexical form, or the text of a quoted triple *)
+Definition rc (e : env) (t : term) : str := match t with TQuoted _ _ _ => render_term t | _ => lex e t end.
+
+Lemma clean_resolve : forall pref t, pref_ok pref -> wf_term_ttl t = true ->
+  resolve_query_term pref (clean_turtle_term (render_term t)) = rc pref t /\
+  starts_with sLTLT (rc pref t) = is_quoted_term t.
 Proof.
-  intros x s p o Hp Hs Hpp Ho. unfold ttl_flush. cbn [rev app join_sp].
+  intros pref t Hp H. destruct (is_quoted_term t) eqn:Eq.
+  - destruct t as [s|l|p l|b x|s p o]; try discriminate. cbn [rc].
+    destruct (quoted_brackets s p o) as [A B].
+    unfold clean_turtle_term. rewrite (trim_tight _ (tight_quoted s p o)), A.
+    unfold resolve_query_term. rewrite A, B. auto.
+  - destruct (clean_resolve_plain pref t Hp H Eq) as [E F].
+    assert (R : rc pref t = lex pref t) by (destruct t; try discriminate; reflexivity).
+    rewrite R. split; [exact E|].
+    destruct (lex pref t) as [|c v]; [reflexivity|]. unfold first_lt_free in F. unfold sLTLT. cbn [starts_with starts_with_c] in *.
+    rewrite N.eqb_sym, F. reflexivity.
+Qed.
+
+Definition enc_term_e (e : env) (x : db) (t : term) : db * N :=
+  match t with TQuoted _ _ _ => enc_term x t | _ => db_encode x (lex e t) end.
+
+Lemma name_iri : forall l, forallb name_char l = true -> forallb iri_char l = true.
+Proof.
+  induction l as [|c l IH]; intro H; [reflexivity|]. cbn [forallb] in *. apply andb_true_iff in H. destruct H as [Hc H].
+  rewrite (IH H), andb_true_r. pose proof (name_char_facts c Hc) as (W & L & D & _).
+  assert (G : (c =? cGT) = false) by (apply N.eqb_neq; intro E; subst c; discriminate).
+  assert (B : (c =? cBS) = false) by (apply N.eqb_neq; intro E; subst c; discriminate).
+  unfold iri_char. rewrite W, L, G, D, B. reflexivity.
+Qed.
+
+Lemma comp_ttl_nt : forall s p o, comp_ttl s = true -> comp_ttl p = true -> comp_ttl o = true ->
+  wf_term_nt (TQuoted s p o) = true.
+Proof. intros s p o Hs Hp Ho. cbn [wf_term_nt]. rewrite (comp_ttl_ok s Hs), (comp_ttl_ok p Hp), (comp_ttl_ok o Ho). reflexivity. Qed.
+
+(* encode_term_star on what the statement hands it *)
+Lemma encode_star_rc : forall e t x, pref_ok e -> wf_term_ttl t = true -> term_recleaned t = false ->
+  encode_star x (rc e t) = enc_term_e e x t.
+Proof.
+  intros e t x Hp H R. destruct t as [s|l|p l|b x0|s p o]; cbn [wf_term_ttl] in H; cbn [rc enc_term_e lex].
+  - apply encode_star_stable. apply iri_stable. apply ttl_iri_wf. exact H.
+  - apply encode_star_stable. apply bnode_stable. apply name_iri. exact H.
+  - repeat (apply andb_true_iff in H; destruct H as [H ?]).
+    apply encode_star_stable. apply iri_stable. unfold wf_iri.
+    destruct (assoc_s p e) as [iri|] eqn:Ea.
+    + rewrite forallb_app, (assoc_value_iri e p iri Hp Ea), (name_iri l H3). reflexivity.
+    + rewrite forallb_app. cbn [forallb]. rewrite (name_iri p H), (name_iri l H3). reflexivity.
+  - apply encode_star_stable. exact R.
+  - apply andb_true_iff in H. destruct H as [H Ho]. apply andb_true_iff in H. destruct H as [Hs Hp'].
+    unfold encode_star. apply star_quoted; apply comp_ttl_ok; assumption.
+Qed.
+
+Lemma enc_term_e_spec : forall e t x x' i,
+  wf_term_ttl t = true -> enc_term_e e x t = (x', i) ->
+  dict_ok (d_dict x) -> qts_ok x -> next_id (d_dict x) + 3 <= QBIT ->
+  dict_ok (d_dict x') /\ qts_ok x' /\ ext x x' /\ d_quads x' = d_quads x /\ d_pref x' = d_pref x /\
+  decode_any x' i = Some (lex e t) /\
+  next_id (d_dict x) <= next_id (d_dict x') /\ next_id (d_dict x') <= next_id (d_dict x) + 3.
+Proof.
+  intros e t x x' i W H Hd Hq Hn.
+  assert (Simple : forall s, db_encode x s = (x', i) ->
+    dict_ok (d_dict x') /\ qts_ok x' /\ ext x x' /\ d_quads x' = d_quads x /\ d_pref x' = d_pref x /\
+    decode_any x' i = Some s /\ next_id (d_dict x) <= next_id (d_dict x') /\ next_id (d_dict x') <= next_id (d_dict x) + 3).
+  { intros s E. assert (N1 : next_id (d_dict x) < QBIT) by lia.
+    destruct (db_encode_spec _ _ _ _ E Hd N1) as (D1 & X1 & Q1 & P1 & [C1 _] & L1 & U1 & T1).
+    split; [exact D1|]. split; [apply (qts_ok_same x); assumption|]. split; [exact X1|].
+    split; [exact Q1|]. split; [exact P1|]. split; [exact C1|]. split; lia. }
+  destruct t as [s|l|p l|b x0|s p o]; cbn [enc_term_e] in H; try (apply Simple; exact H).
+  cbn [wf_term_ttl] in W. apply andb_true_iff in W. destruct W as [W Ho]. apply andb_true_iff in W. destruct W as [Hs Hp].
+  pose proof (enc_term_spec (TQuoted s p o) x x' i (comp_ttl_nt s p o Hs Hp Ho) H Hd Hq Hn) as K.
+  cbn [lex] in K |- *. rewrite !(comp_lex_env _ e) by (apply comp_ttl_ok; assumption). exact K.
+Qed.
+
+(* one Turtle statement: through encode_term_star when the subject or the object is a quoted triple *)
+Definition ttl_step (x : db) (s p o : term) : db :=
+  let e := d_pref x in
+  if is_quoted_term s || is_quoted_term o then
+    let (x1, si) := enc_term_e e x s in
+    let (x2, pi) := enc_term_e e x1 p in
+    let (x3, oi) := enc_term_e e x2 o in
+    add_triple x3 (si, pi, oi)
+  else add_lex x (lex e s) (lex e p) (lex e o) None.
+
+Definition star_fine (s p o : term) : Prop :=
+  is_quoted_term s || is_quoted_term o = true ->
+  term_recleaned s = false /\ term_recleaned p = false /\ term_recleaned o = false.
+
+Lemma ttl_flush_stmt : forall x s p o, pref_ok (d_pref x) ->
+  wf_term_ttl s = true -> wf_term_ttl p = true -> is_quoted_term p = false -> wf_term_ttl o = true -> star_fine s p o ->
+  ttl_flush x (Some (render_term s)) (Some (render_term p)) [render_term o] = (ttl_step x s p o, []).
+Proof.
+  intros x s p o Hp Hs Hpp Hpq Ho Hf. unfold ttl_flush. cbn [rev app join_sp].
   rewrite split_annotation_term by exact Ho. cbv zeta.
   destruct (clean_resolve (d_pref x) s Hp Hs) as [Es Fs].
   destruct (clean_resolve (d_pref x) p Hp Hpp) as [Ep Fp].
   destruct (clean_resolve (d_pref x) o Hp Ho) as [Eo Fo].
-  rewrite Es, Ep, Eo.
-  assert (K : forall v, first_lt_free v -> starts_with sLTLT v = false).
-  { intros [|c v] Hv; [reflexivity|]. unfold first_lt_free in Hv. unfold sLTLT. cbn [starts_with starts_with_c] in *.
-    rewrite N.eqb_sym, Hv. reflexivity. }
-  rewrite (K _ Fs), (K _ Fo). cbn [orb fold_left]. unfold add_lex.
-  destruct (db_encode x (lex (d_pref x) s)) as [x1 si]. destruct (db_encode x1 (lex (d_pref x) p)) as [x2 pi].
-  destruct (db_encode x2 (lex (d_pref x) o)) as [x3 oi]. reflexivity.
+  rewrite Es, Ep, Eo, Fs, Fo. unfold ttl_step. cbv zeta.
+  destruct (is_quoted_term s || is_quoted_term o) eqn:Eq.
+  - destruct (Hf Eq) as (Rs & Rp & Ro).
+    rewrite (encode_star_rc _ s x Hp Hs Rs). destruct (enc_term_e (d_pref x) x s) as [x1 si].
+    rewrite (encode_star_rc _ p x1 Hp Hpp Rp). destruct (enc_term_e (d_pref x) x1 p) as [x2 pi].
+    rewrite (encode_star_rc _ o x2 Hp Ho Ro). destruct (enc_term_e (d_pref x) x2 o) as [x3 oi].
+    cbn [fold_left]. reflexivity.
+  - apply orb_false_iff in Eq. destruct Eq as [Qs Qo].
+    assert (R : forall t, is_quoted_term t = false -> rc (d_pref x) t = lex (d_pref x) t) by (intros t Ht; destruct t; try discriminate; reflexivity).
+    rewrite !R by assumption. cbn [fold_left]. unfold add_lex.
+    destruct (db_encode x (lex (d_pref x) s)) as [x1 si]. destruct (db_encode x1 (lex (d_pref x) p)) as [x2 pi].
+    destruct (db_encode x2 (lex (d_pref x) o)) as [x3 oi]. reflexivity.
+Qed.
+
+Lemma ttl_flush_stmt_plain : forall x s p o, pref_ok (d_pref x) ->
+  wf_term_ttl s = true -> is_quoted_term s = false -> wf_term_ttl p = true -> is_quoted_term p = false ->
+  wf_term_ttl o = true -> is_quoted_term o = false ->
+  ttl_flush x (Some (render_term s)) (Some (render_term p)) [render_term o]
+  = (add_lex x (lex (d_pref x) s) (lex (d_pref x) p) (lex (d_pref x) o) None, []).
+Proof.
+  intros x s p o Hp Hs Qs Hpp Qp Ho Qo. rewrite ttl_flush_stmt; try assumption.
+  - unfold ttl_step. rewrite Qs, Qo. reflexivity.
+  - unfold star_fine. rewrite Qs, Qo. discriminate.
+Qed.
+
+Lemma ttl_step_spec : forall x s p o, db_okq x -> pref_ok (d_pref x) ->
+  wf_term_ttl s = true -> wf_term_ttl p = true -> wf_term_ttl o = true ->
+  next_id (d_dict x) + 9 <= QBIT ->
+  db_okq (ttl_step x s p o) /\
+  (forall lq, In lq (den (ttl_step x s p o)) <-> In lq (den x) \/ lq = lq_of (lex (d_pref x) s) (lex (d_pref x) p) (lex (d_pref x) o) None) /\
+  next_id (d_dict (ttl_step x s p o)) <= next_id (d_dict x) + 9 /\ d_pref (ttl_step x s p o) = d_pref x.
+Proof.
+  intros x s p o [[Hd Hqd] Hq] Hp Ws Wp Wo Hn. unfold ttl_step. cbv zeta.
+  destruct (is_quoted_term s || is_quoted_term o).
+  - set (e := d_pref x).
+    destruct (enc_term_e e x s) as [x1 si] eqn:E1.
+    assert (N1 : next_id (d_dict x) + 3 <= QBIT) by lia.
+    destruct (enc_term_e_spec e s x x1 si Ws E1 Hd Hq N1) as (D1 & K1 & X1 & Q1 & P1 & C1 & L1 & U1).
+    destruct (enc_term_e e x1 p) as [x2 pi] eqn:E2.
+    assert (N2 : next_id (d_dict x1) + 3 <= QBIT) by lia.
+    destruct (enc_term_e_spec e p x1 x2 pi Wp E2 D1 K1 N2) as (D2 & K2 & X2 & Q2 & P2 & C2 & L2 & U2).
+    destruct (enc_term_e e x2 o) as [x3 oi] eqn:E3.
+    assert (N3 : next_id (d_dict x2) + 3 <= QBIT) by lia.
+    destruct (enc_term_e_spec e o x2 x3 oi Wo E3 D2 K2 N3) as (D3 & K3 & X3 & Q3 & P3 & C3 & L3 & U3).
+    assert (X : ext x x3) by (apply (ext_trans _ _ _ X1 (ext_trans _ _ _ X2 X3))).
+    pose proof (decode_any_ext _ _ _ _ (ext_trans _ _ _ X2 X3) C1) as C1'.
+    pose proof (decode_any_ext _ _ _ _ X3 C2) as C2'.
+    assert (Qx : d_quads x3 = d_quads x) by congruence.
+    destruct (den_ext x x3 X Qx Hqd) as [Dn Fq].
+    assert (Kq : quad_ok x3 (si, pi, oi, None)).
+    { unfold quad_ok. split; [exists (lex e s); exact C1'|]. split; [exists (lex e p); exact C2'|]. split; [exists (lex e o); exact C3 | exact I]. }
+    assert (Kd : den_quad x3 (si, pi, oi, None) = lq_of (lex e s) (lex e p) (lex e o) None)
+      by (cbn [den_quad lq_of option_map]; rewrite C1', C2', C3; reflexivity).
+    unfold add_triple. destruct (add_quad_frame x3 (si, pi, oi, None)) as (Fd & _ & Fp).
+    split; [split; [apply add_quad_ok; [split; assumption | exact Kq] | apply add_quad_qts_ok; exact K3]|].
+    split; [intro lq; rewrite den_add_quad, Dn, Kd; reflexivity|].
+    split; [rewrite Fd; lia | rewrite Fp, P3, P2, P1; reflexivity].
+  - assert (N4 : next_id (d_dict x) + 4 <= QBIT) by lia.
+    destruct (add_lex_spec x (lex (d_pref x) s) (lex (d_pref x) p) (lex (d_pref x) o) None (conj Hd Hqd) N4) as (K1 & K2 & K3 & K4).
+    split; [split; [exact K1 | apply add_lex_okq; [split; [split; assumption | exact Hq] | exact N4]]|].
+    split; [exact K2|]. split; [lia | exact K4].
 Qed.
 
 Lemma tok_subj : forall x t, str_eqb t sDOT = false -> str_eqb t sSEMI = false -> str_eqb t sCOMMA = false ->
@@ -632,10 +942,11 @@ Lemma tok_dot : forall a, ttl_token a [cDOT] =
 Proof. intro a. unfold ttl_token. change (str_eqb [cDOT] sDOT) with true. reflexivity. Qed.
 
 Lemma ttl_line_stmt : forall x pd s p o, pref_ok (d_pref x) -> wf_pad_ttl pd = true ->
-  wf_term_ttl s = true -> is_lit s = false -> wf_term_ttl p = true -> wf_term_ttl o = true ->
-  ttl_line x (render_stmt pd s p o None) = add_lex x (lex (d_pref x) s) (lex (d_pref x) p) (lex (d_pref x) o) None.
+  wf_term_ttl s = true -> is_lit s = false -> wf_term_ttl p = true -> is_quoted_term p = false ->
+  wf_term_ttl o = true -> star_fine s p o ->
+  ttl_line x (render_stmt pd s p o None) = ttl_step x s p o.
 Proof.
-  intros x pd s p o Hpr Hpd Hs Hls Hp Ho. unfold wf_pad_ttl in Hpd. repeat (apply andb_true_iff in Hpd; destruct Hpd as [Hpd ?]).
+  intros x pd s p o Hpr Hpd Hs Hls Hp Hpq Ho Hf. unfold wf_pad_ttl in Hpd. repeat (apply andb_true_iff in Hpd; destruct Hpd as [Hpd ?]).
   set (L := render_term s ++ w1 pd ++ render_term p ++ w2 pd ++ render_term o ++ w3 pd ++ [cDOT]).
   destruct (ttl_first s Hs) as (cs & rs & Es & Ks). destruct (first_facts cs Ks) as (F1 & F2 & _).
   assert (TL : tight L).
